@@ -62,6 +62,8 @@ def canon(value):
 
 
 def tok_text(tok):
+    if not hasattr(tok, 'serialize') and hasattr(tok, 'lower_value'):
+        return tok.lower_value        # NormalFakeToken / NoneFakeToken of descriptors.py
     try:
         return tok.serialize()
     except Exception:  # noqa: BLE001 - some error tokens do not serialise
@@ -212,18 +214,19 @@ def raw_of(key, tokens):
     return names, items, end
 
 
-def table_for_raw(key, names, items, ids, intern):
+def table_for_raw(key, names, items, ids, intern, vid=None):
     """Validation table for the raw items actually yielded: ((actual_name value_id) result)."""
+    vid = vid or value_id
     table, seen = [], set()
     for new_name, value in items:
         if not isinstance(new_name, str) or new_name not in names:
             continue
         actual = actual_name(key, new_name)
-        vid = value_id(value, ids)
-        if (actual, vid) in seen:
+        vid_ = vid(value, ids)
+        if (actual, vid_) in seen:
             continue
-        seen.add((actual, vid))
-        table.append([[enc(actual), vid], validate_required(value, actual, intern)])
+        seen.add((actual, vid_))
+        table.append([[enc(actual), vid_], validate_required(value, actual, intern)])
     return table
 
 
@@ -276,7 +279,7 @@ STYLE_KEYS = (
     'row_gap', 'flex_direction', 'flex_wrap', 'flex_grow', 'flex_shrink', 'flex_basis', 'overflow_wrap',
     'break_before', 'break_after', 'break_inside', 'border_top_left_radius', 'border_bottom_right_radius',
     'column_rule_style', 'column_rule_color', 'max_lines', 'block_ellipsis',
-    'display', 'float', 'position', 'opacity', 'visibility', 'text_indent', 'letter_spacing', 'word_spacing',
+    'border_spacing', 'display', 'float', 'position', 'opacity', 'visibility', 'text_indent', 'letter_spacing', 'word_spacing',
 )
 GEOMETRY = ('position_x', 'position_y', 'width', 'height', 'margin_top', 'margin_right', 'margin_bottom',
             'margin_left', 'padding_top', 'padding_right', 'padding_bottom', 'padding_left', 'border_top_width',
